@@ -6,7 +6,10 @@ from harness import core
 from harness import matgen as mg
 from harness.props import c01, c02
 
+from harness import stress
+
 UNSEEN_STR, UNSEEN_INT, UNSEEN_TOK = 'never-seen', 997, 'unseen-tok'
+MAX_MODEL_CALLS = 1100
 
 
 def call_frame(frame, call):
@@ -14,28 +17,81 @@ def call_frame(frame, call):
     unseen categories / tokens injected, optionally without the target column"""
     rows = call['rows']
     cols = []
+    inj = {}
+    for name, k, val in call.get('inject', []):
+        inj.setdefault(name, []).append((k, val))
     for col in frame['cols']:
         if call.get('drop_target') and col['name'] == frame['target']:
             continue
         c2 = dict(col)
-        c2['cells'] = [copy.deepcopy(col['cells'][i]) for i in rows]
+        src = col['cells']
+        if col['name'] in inj:
+            c2['cells'] = [copy.deepcopy(src[i]) for i in rows]
+        else:
+            c2['cells'] = [src[i] for i in rows]       # (never mutated below)
         cols.append(c2)
     byname = {c['name']: c for c in cols}
-    for name, k, val in call.get('inject', []):
+    for name, lst in inj.items():
         col = byname.get(name)
         if col is None:
             continue
-        if col['stype'] == 'categorical':
-            col['cells'][k] = val
-        else:
-            cell = col['cells'][k]
-            col['cells'][k] = (list(cell) if cell else []) + [val]
-    return {'n': len(rows), 'cols': cols, 'target': None if call.get('drop_target') else frame['target']}
+        for k, val in lst:
+            if col['stype'] == 'categorical':
+                col['cells'][k] = val
+            else:
+                cell = col['cells'][k]
+                col['cells'][k] = (list(cell) if cell else []) + [val]
+    out = {'n': len(rows), 'cols': cols, 'target': None if call.get('drop_target') else frame['target']}
+    if frame.get('cfg'):
+        out['cfg'] = dict(frame['cfg'], split_col=False)
+    return out
 
 
-def gen_call(rng, frame):
+def gen_unseen(rng, col, level):
+    """(value, family): a value of the column's kind that was NOT seen at materialization, drawn from look-alike
+    families: extension of the longest fitted value, proper prefix of a fitted value, other case, trailing NUL,
+    sentinel look-alikes, longer than every fitted value (size ladder), surrounding blanks (categorical only)"""
+    seen = mg.observed_values(col)
+    multi = col['stype'] == 'multicategorical'
+    ints = [v for v in seen if isinstance(v, int)]
+    if not multi and (ints or col['r']['dtype'] in ('Int64', 'int64', 'Int32', 'int32', 'float64')):
+        small = col['r']['dtype'] in ('float64', 'Int32', 'int32')
+        cands = [(max(ints) + 1, 'successor'), (min(ints) - 1, 'predecessor'), (-1, 'sentinel'), (UNSEEN_INT, 'plain')] if ints \
+            else [(UNSEEN_INT, 'plain'), (-1, 'sentinel')]
+        if not small:
+            cands += [(2 ** 53 + 1, 'big'), (2 ** 31, 'big'), (-2 ** 40, 'big')]
+        rng.shuffle(cands)
+        for v, fam in cands:
+            if v not in seen:
+                return v, fam
+        return 10 ** 6 + rng.randint(0, 999), 'plain'
+    sep = col['r'].get('sep') if multi else None
+    fitted = sorted((v for v in seen if isinstance(v, str)), key=lambda v: (len(v), v))
+    longest = fitted[-1] if fitted else 'x'
+    some = rng.choice(fitted) if fitted else 'x'
+    fams = [('extension-of-longest', longest + rng.choice(['wear', 'x', '2', 'é', '_prev'])),
+            ('extension', some + rng.choice(['wear', 'x', '0'])),
+            ('prefix', some[:-1]), ('case', some.swapcase()), ('trailing-NUL', some + '\x00'),
+            ('sentinel', rng.choice(['-1', 'nan', 'None', '<NA>', 'NaN', '0', '-1.0'])),
+            ('longer-than-every-fitted', longest + 'x' * stress.pick_size(rng, level, 4097)),
+            ('plain', UNSEEN_TOK if multi else UNSEEN_STR)]
+    if not multi:
+        fams += [('blank-padded', ' ' + some), ('blank-padded', some + ' '), ('sentinel', '')]
+    rng.shuffle(fams)
+    for fam, v in fams:
+        if v in seen:
+            continue
+        if multi and (v == '' or v != v.strip() or (sep and sep in v)):
+            continue
+        return v, fam
+    return (UNSEEN_TOK if multi else UNSEEN_STR) + str(rng.randint(0, 999)), 'plain'
+
+
+def gen_call(rng, frame, level=0, kind=None, size=None):
     n = frame['n']
-    kind = rng.choice(['all', 'multiset', 'multiset', 'single', 'perm', 'repeat'])
+    kind = kind or rng.choice(['all', 'multiset', 'multiset', 'single', 'perm', 'repeat', 'long'])
+    if kind == 'long' and size is None and rng.random() < (0.9 if level < 2 else 0.97):
+        kind = 'multiset'           # (most draws stay short; a long one per ~70 calls)
     if kind == 'all':
         rows = list(range(n))
     elif kind == 'single':
@@ -44,44 +100,65 @@ def gen_call(rng, frame):
         rows = rng.sample(range(n), n)
     elif kind == 'repeat':
         rows = [rng.randrange(n)] * rng.randint(2, 4)
+    elif kind in ('long', 'long-sorted'):
+        # far more picks than the source has rows (repetition), shuffled or ascending
+        m = size or stress.pick_size(rng, level)
+        rows = [rng.randrange(n) for _ in range(m)]
+        if kind == 'long-sorted':
+            rows.sort()
     else:
         rows = [rng.randrange(n) for _ in range(rng.randint(1, 9))]
     call = {'kind': kind, 'rows': rows, 'drop_target': frame['target'] is not None and rng.random() < 0.3,
-            'how': rng.choice(['iloc', 'iloc', 'fresh']), 'inject': []}
+            'how': rng.choice(['iloc', 'iloc', 'fresh', 'take']), 'inject': [], 'unseen': []}
     if rng.random() < 0.45:
+        p = 0.3 if len(rows) < 50 else 3.0 / len(rows)
         for col in frame['cols']:
             if col['name'] == frame['target'] or col['stype'] not in ('categorical', 'multicategorical'):
                 continue
             for k in range(len(rows)):
-                if rng.random() < 0.3:
-                    if col['stype'] == 'categorical':
-                        ints = any(isinstance(c, int) for c in col['cells'])
-                        if col['r']['dtype'] in ('Int64', 'int64', 'float64') or ints:
-                            call['inject'].append([col['name'], k, UNSEEN_INT])
-                        else:
-                            call['inject'].append([col['name'], k, UNSEEN_STR])
-                    else:
-                        call['inject'].append([col['name'], k, UNSEEN_TOK])
+                if rng.random() < p:
+                    v, fam = gen_unseen(rng, col, level)
+                    call['inject'].append([col['name'], k, v])
+                    call['unseen'].append(fam)
         if call['inject']:
             call['how'] = 'fresh'
     if call['how'] == 'fresh':
-        call['labels'] = mg.gen_labels(rng, len(rows), rng.choice(['range', 'dup', 'str', 'offset', 'perm']))
+        call['labels'] = mg.gen_labels(rng, len(rows), rng.choice(['range', 'dup', 'str', 'offset', 'perm', 'bigint', 'spread']))
         k = len(frame['cols']) - (1 if call['drop_target'] else 0)
         call['dfperm'] = rng.sample(range(k), k)
+        call['twin'] = len(rows) <= 64 and rng.random() < 0.3
     return call
+
+
+def case_feasible(case):
+    """can the list-based Lean state machine take the whole history?"""
+    if not mg.model_feasible(case['frame']) or len(case['calls']) > MAX_MODEL_CALLS:
+        return False
+    per_row = max(1, mg.frame_items(case['frame']) // max(1, case['frame']['n']))
+    tot = sum(len(c['rows']) for c in case['calls'])
+    return all(len(c['rows']) <= 4200 for c in case['calls']) and tot * per_row <= mg.MODEL_ITEMS
 
 
 class C04(core.Check):
     pid = 'C04'
     driver = 'drv_c01'
     quick_cases = 800
-    thorough_cases = 9000
-    rule = ("C01's abstract frames (optionally under a non-default index) are materialized - half of them a second time "
+    thorough_cases = 7500      # (was 9000 before the hardening families made a case ~20% dearer; thorough must stay <= 15 min)
+    rule = ("C01's abstract frames (all its dtype / value / container / shared-raw-text / configuration families; every 40th case - "
+            '240th in the thorough tier - scales one dimension of the SOURCE frame to a rung of the size ladder; optionally '
+            'under a non-default index) are materialized - half of them a second time '
             'with the col_stats of the first materialization supplied - and the dataset\'s converter is then called 1-4 '
             'times in a row on: the whole frame, a single row, a permutation, one row repeated, random row multisets '
             '(1-9 picks); either as df.iloc[rows] (duplicate labels) or as a freshly rendered frame with its own '
-            'labelling and column order; 45% of the calls carry unseen categorical values / unseen multicategorical '
-            'tokens in ~30% of their cells; 30% of the calls lack the target column. Compared with the Lean state '
+            'labelling and column order, or as df.take(rows); selections far longer than the source (size ladder; at stress level '
+            '>= 1 one history converts 65 537-65 539 shuffled and 16 385+ ascending picks of a 300-5 000-row source, more of them '
+            'in the thorough tier); histories of up to 259 / 1 027 / 2 051 calls on one converter; 45% of the calls carry unseen '
+            'categorical values / unseen multicategorical tokens in ~30% of their cells, drawn from look-alike families '
+            '(extension of the longest fitted value, proper prefix, other case, trailing NUL, sentinel strings, blank-padded, '
+            'longer than every fitted value by a ladder size, integer successor / predecessor / > 2^53); 30% of the calls lack '
+            'the target column; 30% of the histories read every returned frame again after the last call, 12% convert another '
+            'dataset (own separators, shared raw texts) in between, freshly rendered call frames are compared with a twin '
+            'afterwards. Compared with the Lean state '
             'machine: every cell of every returned frame, y, the converter\'s col_names_dict after every call, the '
             'frame and statistics under supplied col_stats; plus convert(df.iloc[rows]) == tensor_frame[rows] through '
             'the library. Non-trivial = at least one call returned a frame; distinct = hash of the case.')
@@ -102,18 +179,102 @@ class C04(core.Check):
     def __init__(self):
         self._side = {}
 
+    _replaying = False
+
+    def replay(self, path):
+        self._replaying = True
+        return super().replay(path)
+
+    def skip_model(self):
+        """SKIP_MODEL for the engine; a printable marker while replaying (core.replay json-dumps the model outcome)"""
+        return 'oracle-only case: not shipped to the Lean model' if self._replaying else core.SKIP_MODEL
+
+    def extra_checks(self, rng, tier, report):
+        out = []
+        try:
+            import pandas as pd
+            import torch_frame
+            from torch_frame.data import Dataset
+            ds = Dataset(pd.DataFrame({'c': ['a', 'b', 'a'], 'x': [1.0, 2.0, 3.0]}),
+                         {'c': torch_frame.categorical, 'x': torch_frame.numerical}).materialize()
+            try:
+                tf = ds.convert_to_tensor_frame(ds.df.iloc[[]])
+                obs = f'a TensorFrame with {tf.num_rows} rows'
+            except Exception as e:   # noqa
+                obs = f'raises {type(e).__name__}: {str(e)[:140]}'
+            out.append({'input': 'converter called on the empty selection df.iloc[[]]', 'observed': obs,
+                        'why_not_generated': 'the property quantifies over row multisets of the source frame; the typed domain of '
+                                             'the theorems (CallOK) needs >= 1 row'})
+            out += [x for x in mg.probe_outside_domain() if 'Categorical' in x['input'] or 'string' in x['input']]
+        except Exception as e:   # noqa
+            out.append(f'probe failed: {type(e).__name__}: {e}')
+        report['extra']['observed_outside_generated_domain'] = out
+
     def generate(self, rng, n, tier):
+        lvl = self.level
+        period = 40 if lvl < 2 else 240
         for k in range(n):
             focus = [None, 'multicategorical', 'categorical', 'text_embedded', 'embedding', 'image_embedded'][k % 6]
-            if k % 89 == 7:
+            calls = None
+            labels = None
+            if (lvl >= 1 and k == 11) or (lvl == 2 and k % 1200 == 11):
+                # conversions far above every ladder rung (> 16 384 / 32 768 / 65 536 rows) of a modest source frame:
+                # shuffled and ascending selections with repeats, under id-like / shuffled / default integer labels
+                frame = mg.gen_frame(rng, n=rng.choice([300, 1100, 5000]), ncols=rng.choice([1, 2]),
+                                     focus=rng.choice(['categorical', 'multicategorical', 'numerical']), level=lvl, plain=True)
+                big = rng.choice(stress.LADDER_BIG[1:] if k == 11 else stress.LADDER_BIG) + rng.choice([0, 1, 2])
+                calls = [gen_call(rng, frame, lvl, 'long', 65537 + rng.choice([0, 1, 2]) if k == 11 else big),
+                         gen_call(rng, frame, lvl, 'long-sorted', big)]
+                for c in calls:
+                    c.update(how='iloc', inject=[], unseen=[])
+                labels = mg.gen_labels(rng, frame['n'], 'spread' if k == 11 else rng.choice(['spread', 'perm', 'range', 'dup', 'setindex']))
+                frame['fam'] = frame.get('fam', []) + ['scale:call-rows:above-the-ladder(16385..65539)']
+            elif (lvl >= 1 and k == 12) or (lvl == 2 and k % 1200 == 12):
+                # a source frame longer than 65 536 rows, converted as a whole and in shuffled order
+                frame = mg.gen_frame(rng, n=65537 + rng.choice([0, 1, 2]), ncols=rng.choice([1, 2]), target=rng.choice(['none', 'multi']),
+                                     focus=rng.choice(['categorical', 'multicategorical', 'numerical']), level=lvl, plain=True)
+                calls = [gen_call(rng, frame, lvl, 'perm'), gen_call(rng, frame, lvl, 'all')]
+                for c in calls:
+                    c.update(how=rng.choice(['iloc', 'take']), inject=[], unseen=[])
+                labels = mg.gen_labels(rng, frame['n'], rng.choice(['range', 'perm', 'spread']))
+                frame['fam'] = frame.get('fam', []) + ['scale:source-rows:above-the-ladder(65537+)']
+            elif k % period == 9:
+                dims = ['rows', 'cats', 'multicats', 'tokens', 'celllen', 'cols', 'rows', 'seqlen', 'embwidth']
+                frame = mg.gen_scaled_frame(rng, lvl, dims[(k // period) % len(dims)], top=k // period < len(dims), max_cols=1025)
+            elif k % 89 == 7:
                 # a long frame (size-gated code paths: whole-frame conversion vs. short selections of it)
                 frame = mg.gen_frame(rng, n=rng.randint(1024, 1100), ncols=rng.choice([1, 2, 3]),
-                                     focus=rng.choice(['categorical', 'multicategorical', None]))
+                                     focus=rng.choice(['categorical', 'multicategorical', None]), level=lvl)
             else:
-                frame = mg.gen_frame(rng, focus=focus)
-            labels = mg.gen_labels(rng, frame['n']) if rng.random() < 0.3 else mg.gen_labels(rng, frame['n'], 'range')
-            yield {'frame': frame, 'labels': labels, 'supplied': rng.random() < 0.5,
-                   'calls': [gen_call(rng, frame) for _ in range(rng.randint(1, 4))]}
+                frame = mg.gen_frame(rng, focus=focus, level=lvl)
+            if labels is not None:
+                pass
+            elif frame['n'] > 16 and rng.random() < 0.5:
+                labels = mg.gen_labels(rng, frame['n'], rng.choice(['perm', 'dup', 'bigint', 'offset', 'spread', 'spread']))
+            elif rng.random() < 0.3:
+                labels = mg.gen_labels(rng, frame['n'])
+            else:
+                labels = mg.gen_labels(rng, frame['n'], 'range')
+            if calls is None:
+                ncalls = rng.randint(1, 4)
+                if k % (4 * period) == 23:
+                    # a long history on one converter (number of prior calls from the size ladder) of a one-column frame
+                    frame = mg.gen_frame(rng, n=rng.randint(2, 8), ncols=1, level=lvl, target=rng.choice(['none', 'binary']),
+                                         focus=rng.choice(['categorical', 'multicategorical', 'timestamp', 'numerical']))
+                    labels = mg.gen_labels(rng, frame['n'])
+                    ncalls = stress.pick_size(rng, lvl, [257, 1025, 2049][lvl])
+                if mg.frame_items(frame) > 20000 or len(frame['cols']) > 256:
+                    ncalls = min(ncalls, 2)
+                calls = [gen_call(rng, frame, lvl) for _ in range(ncalls)]
+            case = {'frame': frame, 'labels': labels, 'supplied': rng.random() < 0.5, 'calls': calls}
+            if rng.random() < 0.3:
+                case['reinspect'] = True        # every returned frame is read again after the last call
+            if rng.random() < 0.12 and mg.frame_items(frame) < 2000:
+                # another dataset (own configuration, shared raw values where the frame has them) is materialized and its
+                # converter is called between the calls
+                other = (frame.get('prelude') or [None])[0] if rng.random() < 0.4 else None
+                case['interleave'] = other or mg.gen_sibling(rng, frame)
+            yield case
 
     # ------------------------------------------------------------------ real
     def real(self, case):
@@ -143,27 +304,62 @@ class C04(core.Check):
         side['cats'] = {c: s['cats'] for c, s in out['stats'].items()}
         conv = ds.convert_to_tensor_frame
         base_df = ds.df
+        other = None
+        if case.get('interleave'):
+            try:
+                ods, _ = mg.make_dataset(case['interleave'])
+                ods.materialize()
+                other = (ods.convert_to_tensor_frame, ods.df)
+            except Exception as e:   # noqa
+                side['errors'].append(f'interleaved dataset: {type(e).__name__}: {str(e)[:200]}')
+        kept = []
         for call in case['calls']:
             cf = call_frame(frame, call)
             try:
                 if call['how'] == 'iloc':
                     df = base_df.iloc[call['rows']]
-                    if call['drop_target']:
-                        df = df.drop(columns=[frame['target']])
+                elif call['how'] == 'take':
+                    df = base_df.take(call['rows'])
                 else:
                     df = mg.render(cf, call['labels'], call['dfperm'])
+                if call['how'] != 'fresh' and call['drop_target']:
+                    df = df.drop(columns=[frame['target']])
                 tf = conv(df)
-                out['calls'].append({'ok': {'tf': mg.canon_tf(tf), 'convNames': mg.canon_names(conv.col_names_dict)}})
-                if call['how'] == 'iloc' and not call['drop_target'] and not c02.nan_target(frame):
-                    side['lib_eq'].append((call['rows'], bool(tf == ds.tensor_frame[call['rows']])))
+                view = mg.canon_tf(tf)
+                out['calls'].append({'ok': {'tf': view, 'convNames': mg.canon_names(conv.col_names_dict)}})
+                if case.get('reinspect'):
+                    kept.append((tf, view))
+                if call['how'] != 'fresh' and not call['drop_target'] and not c02.nan_target(frame):
+                    side['lib_eq'].append((call['rows'][:40], bool(tf == ds.tensor_frame[call['rows']])))
+                if call.get('twin'):
+                    bad = mg.frames_identical(df, mg.render(cf, call['labels'], call['dfperm']))
+                    if bad:
+                        side['input_modified'] = bad
             except Exception as e:   # noqa
                 side['errors'].append(f'{type(e).__name__}: {str(e)[:200]} @ {traceback.format_exc().splitlines()[-3].strip()[:100]}')
                 out['calls'].append('raises')
-        return {'ok': out}
+            if other is not None:
+                try:
+                    other[0](other[1])
+                except Exception as e:   # noqa
+                    side['errors'].append(f'interleaved converter: {type(e).__name__}: {str(e)[:200]}')
+        for k, (tf, view) in enumerate(kept):
+            # aliasing of output buffers: a frame returned earlier must still read the same after the later calls
+            if mg.canon_tf(tf) != view:
+                side['reinspect'] = f'the frame returned by call {k + 1} reads differently after the later calls'
+                break
+        res = {'ok': out}
+        if not case_feasible(case):
+            side['verdict'] = self.judge(case, res)
+            side['judged'] = True
+            return {'ok': {'oracle-only': core.stable_hash(res), 'calls': ['raises' if c == 'raises' else 'ok' for c in out['calls']]}}
+        return res
 
     # ------------------------------------------------------------------ model
     def model_requests(self, case):
         frame = case['frame']
+        if not case_feasible(case):
+            return []
         side = self._side.get(id(case), {'cats': {}})
         req = {'cmd': 'conv', 'supplied': case['supplied']}
         req.update(mg.model_frame(frame, side['cats'], case['labels']))
@@ -171,7 +367,7 @@ class C04(core.Check):
         calls = []
         for call in case['calls']:
             cf = call_frame(frame, call)
-            if call['how'] == 'iloc':
+            if call['how'] != 'fresh':
                 labels = [case['labels']['values'][i] for i in call['rows']]
                 order = None
             else:
@@ -181,6 +377,8 @@ class C04(core.Check):
         return [req]
 
     def model_outcome(self, case, replies):
+        if not case_feasible(case):
+            return self.skip_model()
         rep = replies[0]
         if not isinstance(rep, dict) or 'ok' not in rep:
             return rep
@@ -198,6 +396,12 @@ class C04(core.Check):
 
     # ------------------------------------------------------------------ oracle
     def oracle(self, case, real_outcome):
+        side = self._side.get(id(case), {})
+        if side.get('judged'):
+            return side['verdict']
+        return self.judge(case, real_outcome)
+
+    def judge(self, case, real_outcome):
         frame = case['frame']
         side = self._side.get(id(case), {})
         errs = side.get('errors', [])
@@ -250,34 +454,60 @@ class C04(core.Check):
                                       f'schema after the call', case, merged_names, c['ok']['convNames'])
         for rows, eq in side.get('lib_eq', []):
             if not eq:
-                return core.Violation('convert/lib-eq', f'convert(df.iloc[{rows}]) != tensor_frame[{rows}] through TensorFrame.__eq__',
+                return core.Violation('convert/lib-eq', f'convert(df.iloc[{rows}...]) != tensor_frame[{rows}...] through TensorFrame.__eq__',
                                       case, True, False)
+        if side.get('reinspect'):
+            return core.Violation('alias/returned-frame-changed', side['reinspect'], case, 'the same cells', 'different')
+        if side.get('input_modified'):
+            return core.Violation('alias/input-frame-modified', f'the converter modified the DataFrame it was given: '
+                                  f'{side["input_modified"]}', case, 'an unchanged DataFrame', side['input_modified'])
+        if any(e.startswith('interleaved') for e in errs):
+            return core.Violation('history/interleaved-dataset-raises', f'{errs}', case, 'no exception', errs[:2])
         return None
 
     def nontrivial_key(self, case, real_outcome):
         if real_outcome == 'raises' or all(c == 'raises' for c in real_outcome['ok']['calls']):
             return None
-        return core.stable_hash(case)
+        return core.stable_hash([case['frame'], case['labels'], case['supplied'],
+                                 [[c['kind'], c['how'], c['rows'][:200], c['inject'][:50]] for c in case['calls'][:50]]])
 
     def classify(self, case, real_outcome):
         frame = case['frame']
-        labs = [f"rows:{frame['n']}", f"cols:{len(frame['cols'])}", f"calls:{len(case['calls'])}",
+        nc = len(case['calls'])
+        labs = [f"rows:{frame['n']}" if frame['n'] <= 12 else 'rows:13+',
+                f"cols:{len(frame['cols'])}" if len(frame['cols']) <= 9 else 'cols:10+',
+                f"calls:{nc}" if nc <= 4 else 'calls:5+',
                 f"supplied-stats:{case['supplied']}", f"labels:{case['labels']['kind']}",
                 'outcome:' + ('raises' if real_outcome == 'raises' else 'ok')]
-        tcol = next((c for c in frame['cols'] if c['name'] == frame['target']), None)
-        labs.append('target:' + (tcol['stype'] if tcol else 'none'))
-        for k, call in enumerate(case['calls']):
+        labs += c01.frame_labels(frame)
+        lab = mg.size_label('prior-calls', nc)
+        if lab:
+            labs.append(lab)
+        if case.get('reinspect'):
+            labs.append('alias:returned-frames-reinspected')
+        if case.get('interleave'):
+            labs.append('history:other-dataset-converted-in-between')
+        if real_outcome != 'raises' and 'oracle-only' in real_outcome['ok']:
+            labs.append('judged:oracle-only(too large for the Lean model)')
+        for k, call in enumerate(case['calls'][:50]):
             labs += [f"call:{call['kind']}", f"call:how:{call['how']}"]
+            lab = mg.size_label('call-rows', len(call['rows']))
+            if lab:
+                labs.append(lab)
+                if call['how'] != 'fresh' and case['labels']['kind'] in ('range', 'perm', 'dup', 'bigint', 'offset', 'spread') and \
+                        call['kind'] in ('long', 'perm', 'multiset'):
+                    labs.append(lab + ':shuffled-integer-labels')
             if call['inject']:
                 labs.append('call:unseen-values')
+                labs += [f'unseen:{f}' for f in set(call.get('unseen', []))]
+            if call.get('twin'):
+                labs.append('alias:converted-frame-unchanged')
             if call['drop_target']:
                 labs.append('call:no-target')
             if len(set(call['rows'])) < len(call['rows']):
                 labs.append('call:repeated-rows')
             if real_outcome != 'raises':
                 labs.append('call:' + ('raises' if real_outcome['ok']['calls'][k] == 'raises' else 'ok'))
-        for st in {c['stype'] for c in frame['cols']}:
-            labs.append(f'stype:{st}')
         kinds = {c['stype'] for c in frame['cols'] if c['name'] != frame['target']}
         if len(kinds & {'embedding', 'text_embedded', 'image_embedded'}) > 1 or \
                 (kinds & {'text_embedded', 'image_embedded'}):
